@@ -5,7 +5,8 @@
    CPython and pydantic and is checked end to end (K3 in harness/vh/props/c04.py), not proved. *)
 From Coq Require Import List String Ascii Bool Sorted Permutation.
 From AC Require Import Base.Strs Model.Names Model.Init Model.Package Proofs.NamesP Proofs.InitP Proofs.PackageP.
-From AC Require Gql.Schema Py.Ann Model.Results Proofs.ScopeP.
+From AC Require Gql.Schema Py.Ann Model.Results Proofs.ScopeP Model.Rebuild Proofs.RebuildP.
+From AC Require Gql.InSchema Model.Inputs Proofs.InputScopeP.
 Import ListNotations.
 Local Open Scope string_scope.
 
@@ -218,6 +219,26 @@ Module WS.
         as [[[o p] k]|m] eqn:E; simpl in H; [|discriminate]. inversion H; subst. eapply ptd_well_scoped; eauto.
   Qed.
 
+  (* the typed form: the guard is GraphQL's ScalarLeafs rule along the generator's own typed traversal
+     ([typed_leafs H]: where H holds of (type, selection list), a field without sub-selection is scalar/enum IN THAT
+     TYPE, and H is handed on to every (class type, sub-selection) a class is generated for).  The by-name guard
+     above is one instance ([leaf_disc_typed]); any typing judgement closed under these two steps is another. *)
+  Theorem C04_well_scoped_classes_typed : forall (H : string -> list sel -> Prop) fuel C S frs d cls tn,
+    typed_leafs C S frs H ->
+    result_classes fuel C S frs d = Ok cls ->
+    (match d with DOp kind _ _ _ => root_type_name S kind = Ok tn | DFrag f => tn = fr_on f end) ->
+    H tn (match d with DOp _ _ _ sels => sels | DFrag f => fr_sel f end) ->
+    forall c pf n, In c cls -> In pf (c_fields c) -> In n (ann_classes (p_ann pf)) -> In n (map c_name cls).
+  Proof.
+    intros H fuel C S frs [kind name mixins sels | f] cls tn HH E T L; simpl in E.
+    - unfold op_parse in E. rewrite T in E. simpl in E.
+      destruct (parse_type_def fuel C S frs [] (pascal_s name) tn sels false mixins None) as [[[o p] k]|m] eqn:P;
+        simpl in E; [|discriminate]. inversion E; subst. eapply ptd_well_scoped_typed; eauto.
+    - subst tn. destruct (unpack_fragment S f None); [inversion E; subst; intros c pf n []|].
+      destruct (parse_type_def fuel C S frs [] (pascal_s (fr_name f)) (fr_on f) (fr_sel f) false (fr_mixins f) None)
+        as [[[o p] k]|m] eqn:P; simpl in E; [|discriminate]. inversion E; subst. eapply ptd_well_scoped_typed; eauto.
+  Qed.
+
   Theorem C04_well_scoped_enums : forall fuel C S frs d cls,
     result_classes fuel C S frs d = Ok cls ->
     forall c pf e, In c cls -> In pf (c_fields c) -> In e (ann_enums (p_ann pf)) ->
@@ -295,8 +316,85 @@ Module WS.
   Qed.
 End WS.
 Print Assumptions WS.C04_well_scoped_classes_partial.
+Print Assumptions WS.C04_well_scoped_classes_typed.
 Print Assumptions WS.C04_well_scoped_enums.
 Print Assumptions WS.C04_well_scoped_bases.
+
+(* ---- model_rebuild placement (Model/Rebuild.v) ----
+   Import-time model: classes are created in list order; a class is complete at creation iff every class its
+   annotations name is earlier in the list; a model_rebuild() after all classes completes it iff every name it
+   mentions exists by then ([complete_after_load]).  With the calls the generator places (every class that has a
+   quoted annotation; in the fragments module also every top-level fragment class, b2fbf53) every class of a
+   result module / of one fragment's class group is complete - given well-scoped annotations (typed guard). *)
+Module RB.
+  Local Open Scope list_scope.
+  Import Gql.Schema Py.Ann Model.Results Model.Rebuild Proofs.ScopeP Proofs.RebuildP.
+
+  Theorem C04_result_module_complete_after_import : forall (H : string -> list sel -> Prop) fuel C S frs d cls tn,
+    typed_leafs C S frs H ->
+    result_classes fuel C S frs d = Ok cls ->
+    (match d with DOp kind _ _ _ => root_type_name S kind = Ok tn | DFrag f => tn = fr_on f end) ->
+    H tn (match d with DOp _ _ _ sels => sels | DFrag f => fr_sel f end) ->
+    forall top pre c post, cls = pre ++ c :: post ->
+      complete_after_load (map c_name cls) (op_rebuild_calls cls) (map c_name pre) c = true /\
+      complete_after_load (map c_name cls) (frag_rebuild_calls top cls) (map c_name pre) c = true.
+  Proof.
+    intros H fuel C S frs d cls tn HH E T L top pre c post Ec.
+    pose proof (WS.C04_well_scoped_classes_typed H fuel C S frs d cls tn HH E T L) as W.
+    split; eapply complete_generic; eauto; intros c0 Hc0 F; [apply op_rebuild_has | apply frag_rebuild_has]; assumption.
+  Qed.
+
+  (* no call of an operation module is wasted: only classes with a quoted annotation are rebuilt *)
+  Theorem C04_rebuild_calls_minimal : forall cls n,
+    In n (op_rebuild_calls cls) -> exists c, In c cls /\ c_name c = n /\ has_forward_refs c = true.
+  Proof. exact op_rebuild_minimal. Qed.
+
+  (* the rule before b2fbf53 (only top-level fragment classes) left a nested class incomplete: regression witness *)
+  Example C04_nested_fragment_class_needs_rebuild :
+    let boss := {| c_name := "F3Boss"; c_bases := ["BaseModel"];
+                   c_fields := [{| p_name := "boss"; p_alias := None; p_ann := AOpt (AClass "F3BossBoss");
+                                   p_default_none := false; p_discriminator := false |}] |} in
+    let cls := [{| c_name := "F3"; c_bases := ["BaseModel"];
+                   c_fields := [{| p_name := "boss"; p_alias := None; p_ann := AOpt (AClass "F3Boss");
+                                   p_default_none := false; p_discriminator := false |}] |};
+                boss; {| c_name := "F3BossBoss"; c_bases := ["F1"]; c_fields := [] |}] in
+    complete_after_load (map c_name cls) ["F3"] ["F3"] boss = false /\
+    complete_after_load (map c_name cls) (frag_rebuild_calls ["F3"] cls) ["F3"] boss = true.
+  Proof. split; vm_compute; reflexivity. Qed.
+End RB.
+Print Assumptions RB.C04_result_module_complete_after_import.
+Print Assumptions RB.C04_rebuild_calls_minimal.
+
+(* ---- the input types module (Model/Inputs.v, include_all_inputs) ---- *)
+Module IN.
+  Local Open Scope list_scope.
+  Import Gql.InSchema Model.Inputs Proofs.InputScopeP.
+
+  (* every class an annotation names is a class of input_types.py, every enum an enum of the schema (enums.py),
+     every custom scalar type/serializer one of the configured scalars; no hypothesis *)
+  Theorem C04_inputs_well_scoped : forall s cs snake c pf,
+    In c (gen_classes s cs snake) -> In pf (c_fields c) ->
+    (forall m, In m (ann_classes (p_ann pf)) -> In m (map c_name (gen_classes s cs snake))) /\
+    (forall e, In e (ann_enums (p_ann pf)) -> exists vs, lookup e s = Some (DEnum vs)) /\
+    (forall ty ser, In (ty, ser) (ann_customs (p_ann pf)) ->
+       exists n d, lookup n cs = Some d /\ sd_type_name d = ty /\ sd_serialize_name d = ser).
+  Proof. exact inputs_well_scoped. Qed.
+
+  (* with the model_rebuild() calls of InputTypesGenerator every input class is complete after import
+     (recursive and mutually recursive inputs included); no hypothesis *)
+  Theorem C04_inputs_complete_after_import : forall s cs snake pre c post,
+    gen_classes s cs snake = pre ++ c :: post ->
+    complete_after_load (map c_name (gen_classes s cs snake)) (rebuild_calls (gen_classes s cs snake))
+                        (map c_name pre) c = true.
+  Proof. exact inputs_complete_after_load. Qed.
+
+  Theorem C04_inputs_rebuild_minimal : forall cl n,
+    In n (rebuild_calls cl) -> exists c, In c cl /\ c_name c = n /\ refs c <> [].
+  Proof. exact inputs_rebuild_minimal. Qed.
+End IN.
+Print Assumptions IN.C04_inputs_well_scoped.
+Print Assumptions IN.C04_inputs_complete_after_import.
+Print Assumptions IN.C04_inputs_rebuild_minimal.
 
 (* ---- non-vacuity: hypotheses are met by a non-trivial input, every refusal is reachable ---- *)
 Example C04_ok_example : exists p,
